@@ -14,6 +14,7 @@ CheckCase(o) ==
     \cup (IF o.columnsPair THEN {} ELSE {V(o, "C18.ColumnsPairWithTimes")})
     \cup (IF o.hasTEval /\ ~(Len(o.tGaps) = o.nTEval /\ \A k \in 1..Len(o.tGaps) : o.tGaps[k] <= EndUnits) THEN {V(o, "C18.ReturnsExactlyTheRequestedTimesSorted")} ELSE {})
     \cup (IF o.sortedNondecreasing THEN {} ELSE {V(o, "C18.TimesSorted")})
+    \cup (IF o.callerListUntouched THEN {} ELSE {V(o, "C18.CallerCallbackListUntouched")})
     \cup (IF o.beyondEvent THEN {V(o, "C18.NothingReturnedBeyondATerminalEvent")} ELSE {})
     \cup (IF o.wantEvents # -1 /\ o.nEvents # o.wantEvents THEN {V(o, "C18.TerminalEventReportedOnce")} ELSE {})
     \* without t_eval and without a terminal event the returned times end at the end of the span (either direction; found when a
